@@ -12,6 +12,8 @@ def lab(x):
 
 LABELS = [lab("a"), lab("b"), json.dumps({"label": "ü\"'", "n": [1, {"k": None}], "f": 0.5},
                                          sort_keys=True, separators=(",", ":"), ensure_ascii=False)]
+# data that compares equal in Python (1 == True == 1.0, 0 == False) but is not the same JSON value
+LABELS_JSON_TYPES = ['{"n":1}', '{"n":true}', '{"n":1.0}', '{"n":0}', '{"n":false}', '{"n":[1,{"k":true}]}', '{"n":[1.0,{"k":1}]}']
 BUCKETS = ["b0", "b1", "bü-2"]
 # ids that SQL LIKE would confuse (case twins, "_" as a wildcard) and that contain each other
 BUCKETS_LIKE = ["aw_w", "aw-w", "AW_W", "aw_w%"]
@@ -114,7 +116,7 @@ class HistGen:
     def op_read(self, b):
         k = self.rng.choice(["get", "get1", "getbyid", "count", "metadata", "buckets", "lookup"])
         if k == "get":
-            self.ops.append(["get", b, self.rng.choice([-1, -1, 1, 2, 3, 0, 100]), None, None])
+            self.ops.append(["get", b, self.rng.choice([-1, -1, 1, 2, 3, 0, 100, -2, -100]), None, None])
         elif k == "get1":
             self.ops.append(["get", b, 1, None, None])
         elif k == "getbyid":
@@ -258,6 +260,13 @@ class RefModel:
                     return f"{where}: replace_last on a non-empty bucket rejected with {out}"
                 hint = op[3]
                 top = max(x[1] for x in self.b[b])
+                if hint is None:
+                    # no limit-1 read preceded it (a history observed only at its end): the newest event is rewritten;
+                    # with several events tied for newest the reference cannot tell which one - stop judging there
+                    newest = [x for x in self.b[b] if x[1] == top]
+                    if len(newest) != 1:
+                        return None
+                    hint = newest[0][0]
                 hit = [x for x in self.b[b] if x[0] == hint]
                 if len(hit) != 1 or hit[0][1] != top:
                     return f"{where}: the limit-1 read before it returned id {hint}, which is not a newest event"
